@@ -14,7 +14,8 @@ from .interp import AV, BASE_TOP, EXT_TOP, UNK, Out, const, dict_av, exc
 from .terms import PURE_STR_METHODS, T, TermRule, destruct, is_opaque, term_of, tv
 
 MUTATING_METHODS = {"append", "extend", "insert", "pop", "remove", "clear", "sort", "reverse", "update", "setdefault", "popitem", "discard", "add",
-                    "put", "close", "seek", "write", "send", "sendall", "settimeout", "release_conn", "drain_conn"}
+                    "put", "close", "seek", "write", "send", "sendall", "settimeout", "release_conn", "drain_conn", "connect", "request", "getresponse",
+                    "start_connect", "set_tunnel", "shutdown", "flush", "decompress", "read", "readinto", "read1", "readline"}
 
 
 class GenRule(TermRule):
